@@ -5,6 +5,7 @@ import (
 	"go/token"
 	"go/types"
 	"os"
+	"path/filepath"
 	"runtime"
 	"sort"
 	"strings"
@@ -32,6 +33,7 @@ type Ctx struct {
 	cg            *callgraph.Graph
 	cha           *callgraph.Graph
 	fnInfo        map[*ssa.Function]*fnInfo
+	NormNotes     []string
 	fileShape     *fileReaderShape
 	expandedPred  map[*ssa.Call]bool
 	deepFacts     bool
@@ -67,33 +69,21 @@ var anchorPkgs = []string{
 }
 
 func load(repo string, overlay map[string][]byte, tags string) (*Ctx, error) {
-	cfg := &packages.Config{Mode: packages.LoadAllSyntax, Dir: repo, Tests: false, Overlay: overlay}
-	cfg.Env = append(os.Environ(), "GOWORK=off")
-	if tags != "" {
-		cfg.BuildFlags = []string{"-tags=" + tags}
-	}
-	pkgs, err := packages.Load(cfg, "./...")
+	pkgs, err := loadPkgs(repo, overlay, tags)
 	if err != nil {
-		return nil, fmt.Errorf("packages.Load: %w", err)
+		return nil, err
 	}
-	var errs []string
-	packages.Visit(pkgs, nil, func(p *packages.Package) {
-		for _, e := range p.Errors {
-			errs = append(errs, fmt.Sprintf("%s: %v", p.PkgPath, e))
+	pkgs, normOv, normNotes := normalize(repo, overlay, tags, pkgs)
+	if d := os.Getenv("FDCHECK_DUMP_NORMAL"); d != "" {
+		for f, b := range normOv {
+			_ = os.WriteFile(filepath.Join(d, filepath.Base(f)), b, 0o644)
 		}
-	})
-	if len(errs) > 0 {
-		sort.Strings(errs)
-		if len(errs) > 10 {
-			errs = errs[:10]
-		}
-		return nil, fmt.Errorf("type-check / load errors (the tree does not build):\n  %s", strings.Join(errs, "\n  "))
 	}
 	if len(pkgs) < 85 {
 		return nil, fmt.Errorf("only %d packages loaded from %s (expected >= 85)", len(pkgs), repo)
 	}
 	c := &Ctx{RepoDir: repo, ModPath: modulePath, Pkgs: map[string]*packages.Package{}, NPkgs: len(pkgs),
-		fnInfo: map[*ssa.Function]*fnInfo{}, Toolchain: runtime.Version()}
+		fnInfo: map[*ssa.Function]*fnInfo{}, Toolchain: runtime.Version(), NormNotes: normNotes}
 	for _, p := range pkgs {
 		c.Pkgs[p.PkgPath] = p
 		c.Fset = p.Fset
